@@ -244,6 +244,24 @@ theorem write_data_accepted (m : M) (hdt : m.dt = some .double) (h : (runWith.ru
     (runWith.runFlat writeDataSteps m).1.file.ds = some { rank := m.x.rank, vals := m.x.elems.map (·.val) } ∧
     (runWith.runFlat writeDataSteps m).1.file.stamp = m.file.stamp := writeData_accepted m hdt h
 
+/-- **`H5Group.write_data` with a text dtype** (`Tag.units`, `MultiTag.units`, `SetDimension.labels`): text that cannot
+be stored (an embedded NUL) is refused before the dataset is resized or created; `hh5`: text passing the test is text
+h5py writes -/
+theorem write_data_text_refused_unchanged (m : M) (hdt : m.dt = some .string) (hconv : m.converted = false)
+    (hh5 : ∀ y ∈ m.x.elems, y.typeOk = true → y.h5Ok = true) (e : Err)
+    (h : (runWith.runFlat writeDataSteps m).2 = some e) : (runWith.runFlat writeDataSteps m).1.file = m.file :=
+  writeData_text_refused_unchanged m hdt hconv hh5 e h
+
+/-- non-vacuity: units `["s", "a\0b"]` offered to a stored one-element vector — refused, nothing resized -/
+example : runWith.runFlat writeDataSteps
+      { x := .seq false [{ val := 0, typeOk := true, convOk := false, h5Ok := true },
+                         { val := 0, typeOk := false, convOk := false, h5Ok := false }],
+        dt := some .string, file := { ds := some { rank := 1, vals := [0] }, stamp := 1 } } =
+    ({ x := .seq false [{ val := 0, typeOk := true, convOk := false, h5Ok := true },
+                        { val := 0, typeOk := false, convOk := false, h5Ok := false }],
+       dt := some .string, file := { ds := some { rank := 1, vals := [0] }, stamp := 1 } }, some .valueError) := by
+  decide +kernel
+
 /-- **the float-vector setters**: a refused assignment leaves the stored vector and `updated_at` as they were -/
 theorem vector_setters_refused_unchanged (nm : String) (s : Setter) (hs : (nm, s) ∈ floatSetters)
     (f : File) (now : Nat) (x : Arg) (e : Err) (h : (runSetter writeDataSteps s f now x).2 = some e) :
